@@ -1,0 +1,27 @@
+//go:build verif
+
+package ast
+
+// Machine-checked contracts for the AST nodes (comment-only; compiled only with -tags verif).
+// The axioms node_* in /verif/contracts/shared/ast.spec state what Type()/Literal() return through
+// the Node interface; the concrete methods are verified against the same equations here.
+
+//@ props C13 C05 C12 C03
+
+//@ iface Node.Type
+//@ ensures result == nodeType(self)
+
+//@ iface Node.Literal
+//@ ensures result == nodeLit(self)
+
+//@ func (NodeType).Type
+//@ ensures result == t
+
+//@ func (String).Literal
+//@ ensures result == s.Text
+
+//@ func (Ident).Literal
+//@ ensures result == i.Name
+
+//@ func (Command).Literal
+//@ ensures result == c.Command
